@@ -193,6 +193,9 @@ func init() {
 						if s.A&bInc != 0 {
 							c.Violate(ev.Pos, "[token-advance-without-swap] batchToken advanced although nothing was flushed")
 						}
+						if s.A&bStop != 0 && s.V[0] != pathsim.True {
+							c.Violate(ev.Pos, "[stop-without-swap] Flush stops the timer although nothing was flushed and the batch may be non-empty: a stale time-out token disarms the time-out of the batch being collected (Add arms it only when a batch starts), so without a size-triggered flush its items are never handed out")
+						}
 						if !retNil {
 							c.Violate(ev.Pos, "[returns-unswapped] Flush returns items without having swapped the batch out: they will be handed out again (duplicates)")
 						}
